@@ -37,6 +37,23 @@ func timeJSON(t time.Time) string {
 // times: same instant AND same JSON rendering (the header hash is over JSON).
 func diffTime(a, b time.Time) bool { return !a.Equal(b) || timeJSON(a) != timeJSON(b) }
 
+// negSecOffset: zone offset negative with a non-zero seconds part. go1.23's
+// time.UnmarshalBinary (version 2 blobs) reads the seconds byte as unsigned, so
+// MarshalBinary/UnmarshalBinary is not an identity on such times.
+func negSecOffset(t time.Time) bool {
+	_, off := t.Zone()
+	return off%60 < 0
+}
+
+const negSecField = "time-negative-second-offset"
+
+func timeField(name string, a time.Time) string {
+	if negSecOffset(a) {
+		return negSecField
+	}
+	return name
+}
+
 func diffBig(a, b *big.Int) bool {
 	if a == nil || b == nil {
 		return a != b
@@ -67,13 +84,13 @@ func diffHeader(a, b *types.BlockHeader) (string, string) {
 	case a.PreHash != b.PreHash:
 		return "PreHash", ""
 	case diffTime(a.PreTime, b.PreTime):
-		return "PreTime", timeJSON(a.PreTime) + " / " + timeJSON(b.PreTime) + fmt.Sprintf(" equal=%v", a.PreTime.Equal(b.PreTime))
+		return timeField("PreTime", a.PreTime), timeJSON(a.PreTime) + " / " + timeJSON(b.PreTime) + fmt.Sprintf(" equal=%v", a.PreTime.Equal(b.PreTime))
 	case diffBig(a.ProveValue, b.ProveValue):
 		return "ProveValue", short(a.ProveValue) + " != " + short(b.ProveValue)
 	case a.TotalQN != b.TotalQN:
 		return "TotalQN", fmt.Sprint(a.TotalQN, " != ", b.TotalQN)
 	case diffTime(a.CurTime, b.CurTime):
-		return "CurTime", timeJSON(a.CurTime) + " / " + timeJSON(b.CurTime) + fmt.Sprintf(" equal=%v", a.CurTime.Equal(b.CurTime))
+		return timeField("CurTime", a.CurTime), timeJSON(a.CurTime) + " / " + timeJSON(b.CurTime) + fmt.Sprintf(" equal=%v", a.CurTime.Equal(b.CurTime))
 	case diffBytes(a.Castor, b.Castor):
 		return "Castor", fmt.Sprintf("%#v != %#v", a.Castor, b.Castor)
 	case diffBytes(a.GroupId, b.GroupId):
@@ -225,7 +242,7 @@ func diffGroup(a, b *types.Group) (string, string) {
 		case diffBytes(ah.CreateBlockHash, bh.CreateBlockHash):
 			return "Header.CreateBlockHash", fmt.Sprintf("%#v != %#v", ah.CreateBlockHash, bh.CreateBlockHash)
 		case diffTime(ah.BeginTime, bh.BeginTime):
-			return "Header.BeginTime", timeJSON(ah.BeginTime) + " / " + timeJSON(bh.BeginTime)
+			return "Header." + timeField("BeginTime", ah.BeginTime), timeJSON(ah.BeginTime) + " / " + timeJSON(bh.BeginTime)
 		case ah.MemberRoot != bh.MemberRoot:
 			return "Header.MemberRoot", ""
 		case ah.CreateHeight != bh.CreateHeight:
